@@ -341,6 +341,15 @@ def run(ctx):
                  "set_sharding_key can return without computing the shard of the key it was given (or without writing the selection): the command is acknowledged, SHOW SHARD reports what an intervening SET SHARD / comment / "
                  "inference / reload left, and the next statement runs on that shard's servers", "", (w1 and w1 != [0] and ssk.describe_path(w1)) or (w2 and w2 != [0] and ssk.describe_path(w2)))
 
+    # ... and the inference, which may write the role and the shard, leaves them alone in a session that switched it off with SET SERVER ROLE (the clause is C05-R4's, shared)
+    from common import explicit_role_kept_findings
+    erk = explicit_role_kept_findings(F)
+    if erk is None:
+        r4.missing("Client::handle / routing inferences")
+    else:
+        for key_, ok_, okm_, fm_, wh_, wit_ in erk:
+            r4.check(ok_, key_, okm_, fm_ + " - SHOW SERVER ROLE then reports a role no SET established", wh_, wit_)
+
     # ---------------- R5 totality on query-derived text
     r5 = ctx.rule("C13-R5", "try_execute_command has no panic-capable operation on data derived from the query text other than the discharged ones (numeric arguments of any length get a reply, not a panic)", floor=5)
     if tec:
